@@ -32,6 +32,10 @@ manifest = {
     "engines": [
         {"name": "sim", "path": "harness/sim", "serves_properties": sorted(p for p in CHECKS if META[p]["engine"] == "sim"),
          "kind_free_text": "world simulator: real gateway between a mock messaging client and in-process WebSocket/HTTP clients, rapid stateful generation of scripts, reference client/service oracles, exact quiescence from goroutine dumps, script-level delta-debugging shrinker"},
+        {"name": "unit", "path": "harness/unit", "serves_properties": ["C05", "C12", "C14", "C15", "C19"],
+         "kind_free_text": "pure-function property tests (rapid) with reference implementations, exhaustive small-scope enumeration of the collection diff, native go fuzz targets"},
+        {"name": "natsrig", "path": "harness/natsrig", "serves_properties": ["C18"],
+         "kind_free_text": "scriptable fake NATS server (client text protocol, control-line limit as nats-server 2.6.6) driving the real nats/nats.go adapter"},
     ],
     "checks": checks,
     "not_applicable": [{"property_id": k, "reason": v} for k, v in sorted(NOT_APPLICABLE.items())],
